@@ -1216,6 +1216,9 @@ class Evaluator:
             v = self.rv(self.eval(args[0], frame))
             if isinstance(v, Str):
                 return v
+            if isinstance(v, tuple) and v and v[0] == "cptr":
+                # rebuilt from a C string: runs to the first NUL byte, not to the end of the original view
+                return Str([("cstr_of", v[1])])
             if isinstance(v, tuple) and v and v[0] == "ptr":
                 raise Inconclusive("string from pointer")
             if isinstance(v, tuple) and v and v[0] in ("fn", "g"):
@@ -1348,8 +1351,12 @@ class Evaluator:
                 if isinstance(v, Str) and isinstance(s, Str):
                     self.save(this_lv, Str(s.parts + v.parts))
                     return this_lv
-            if sn in ("operator basic_string_view", "c_str", "data"):
+            if sn == "operator basic_string_view":
                 return s
+            if sn in ("c_str", "data"):
+                if isinstance(s, Str) and all(isinstance(p, str) for p in s.parts):
+                    return s
+                return ("cptr", s)   # a pointer to the characters: the length of the view is not carried along
             if sn == "empty" and isinstance(s, Str):
                 if not s.parts:
                     return True
